@@ -11,6 +11,7 @@ import JsonV.Lemmas.NumInt
 import JsonV.Lemmas.NumGrammar
 import JsonV.Lemmas.NumDenote
 import JsonV.Lemmas.NumTok
+import JsonV.Lemmas.NumTokFloat
 
 namespace JsonV.Props.C10
 open JsonV JsonV.Model.Number JsonV.Spec.Ecma
@@ -257,6 +258,32 @@ example (pf : Bytes → Fl) : tokInt pf (.float ⟨false, false, 2 ^ 52, 11⟩ f
   constructor
   · rw [typedFloat_int_class pf _ _ rfl, if_neg (by decide), if_neg (by decide), if_neg (by decide)]
   · rw [typedFloat_uint_class pf _ _ rfl, if_neg (by decide), if_pos (by decide)]; rfl
+
+/-! ### Token.Float -/
+
+/-- Token.Float / Token.Float32 on a RAW token: exactly the float parser applied to the literal
+(`strconv.ParseFloat(buf, 64)` resp. `(buf, 32)`), with ErrRange iff the parser overflowed to ±Inf. -/
+theorem tokenFloat_class (pf64 pf32 : Bytes → Fl) (buf : Bytes) :
+    tokFloat64 pf64 pf32 (.raw buf) = (pf64 buf, if (pf64 buf).inf then .range else .none) ∧
+    tokFloat32 pf64 pf32 (.raw buf) = (roundFl fmt32 (pf32 buf), if (pf32 buf).inf then .range else .none) :=
+  ⟨rfl, rfl⟩
+
+/-- Token.Float on jsontext.Int(n) / jsontext.Uint(u): Go's integer→float64 conversion (one rounding to nearest
+even), no error — the very value the raw token of the rendered literal reports under the correctly rounding
+parser `parseFloatExact` (the specification of strconv.ParseFloat): typed ≡ raw for the Float accessor too.
+(Token.Float32 on such tokens rounds twice — known finding N2 — and is deliberately not covered.) -/
+theorem typedInt_float (pf32 : Bytes → Fl) (n : Int) (h1 : -(2 ^ 63 : Int) ≤ n) (h2 : n < 2 ^ 63) :
+    (tokFloat64 (parseFloatExact fmt64) pf32 (mkInt n)).1 =
+      (tokFloat64 (parseFloatExact fmt64) pf32 (.raw (formatInt n))).1 ∧
+    (n ≠ 0 → tokFloat64 (parseFloatExact fmt64) pf32 (mkInt n) =
+      (roundFl fmt64 ⟨decide (n < 0), false, n.natAbs, 0⟩, .none)) :=
+  JsonV.Lemmas.NumTokFloat.mkInt_float pf32 n h1 h2
+
+theorem typedUint_float (pf32 : Bytes → Fl) (u : Nat) (h : u < 2 ^ 64) :
+    (tokFloat64 (parseFloatExact fmt64) pf32 (mkUint u)).1 =
+      (tokFloat64 (parseFloatExact fmt64) pf32 (.raw (formatUint u))).1 ∧
+    (u ≠ 0 → tokFloat64 (parseFloatExact fmt64) pf32 (mkUint u) = (roundFl fmt64 ⟨false, false, u, 0⟩, .none)) :=
+  JsonV.Lemmas.NumTokFloat.mkUint_float pf32 u h
 
 /-! ### floats: layout of the shortest decomposition -/
 
